@@ -26,6 +26,9 @@ def dropCR (s : Bytes) : Bytes :=
   | some 13 => s.dropLast
   | _ => s
 
+/-- every line of the file (without its `\n`) fits a `bufio.Scanner` token -/
+def linesFit (file : Bytes) : Bool := (splitOn LF file).all fun l => l.length < maxTok
+
 theorem cut_rest_le (sep : UInt8) (s : Bytes) : (cut sep s).2.1.length ≤ s.length := by
   induction s with
   | nil => simp [cut]
@@ -126,12 +129,6 @@ decreasing_by
 
 /-! ### raw -/
 
-/-- `decoders/ammo.RawAmmo` after `Setup` (no configured headers) -/
-structure RawAmmo where
-  frame : Bytes
-  tag : Bytes
-deriving DecidableEq, Repr, Inhabited
-
 /-- `raw.DecodeHeader` -/
 def rawDecodeHeader (s : Bytes) : Option (Int × Bytes) :=
   let p := cut SP s
@@ -188,6 +185,9 @@ def entityAmmo (e : Entity) : Except Err Ammo :=
     .ok { method := e.method, url := httpPrefix ++ e.host ++ e.uri, body := e.body, tag := e.tag
           hdrs := e.headers.foldl (fun h kv => hset h kv.1 kv.2) [] }
   else .error .badmethod
+
+/-- the entity stays inside the class where the model knows `net/url` -/
+def entityKnown (e : Entity) : Bool := uriOK e.uri && (e.host.isEmpty || hostOK e.host) && validMethod e.method
 
 /-- one pass of the streaming `jsonlineDecoder.Scan` over the decoded entities -/
 def jsonPass : List Entity → List Ammo × Stop
